@@ -17,9 +17,12 @@ PYTHONPATH=$wt timeout 600 /venv/bin/python $src/demo.py > /tmp/seedres/${id}_$k
 PYTHONPATH=/repo timeout 600 /venv/bin/python $src/demo.py > /tmp/seedres/${id}_$k.demo_clean 2>&1; dk=$?
 echo "demo changed exit=$dc : $(tail -1 /tmp/seedres/${id}_$k.demo_changed | cut -c1-300)"
 echo "demo clean   exit=$dk : $(tail -1 /tmp/seedres/${id}_$k.demo_clean | cut -c1-200)"
+# the checks run from a private copy of /verif so that regenerated models of the changed tree never touch /verif's build
+vc=/tmp/verif_seed_${id}_$k
+mkdir -p $vc && rsync -a --delete --exclude .git --exclude replays --exclude .run --exclude evidence /verif/ $vc/
 for c in $checks; do
   s=$(date +%s)
-  r=$(cd /verif && VERIF_REPO=$wt timeout 3000 ./check $c quick 2>&1)
+  r=$(cd $vc && VERIF_REPO=$wt timeout 3000 ./check $c quick 2>&1)
   rc=$?
   echo "check $c rc=$rc $(( $(date +%s)-s ))s violations=$(echo "$r" | grep -c '^VIOLATION') nofail=$(echo "$r" | grep -c 'no-failing-input-found') | $(echo "$r" | tail -1)"
   echo "$r" | grep '^VIOLATION' | head -3
@@ -28,6 +31,7 @@ for c in $checks; do
 import json,sys; d=json.load(open('$f')); print('   first:', d.get('what') or [b.get('obligation') for b in d.get('broken',[])][:3])"
 done
 cd /; git -C /repo worktree remove --force $wt
+mkdir -p /tmp/seedres/replays; cp $vc/replays/* /tmp/seedres/replays/ 2>/dev/null; rm -rf $vc
 echo "RESULT suite_ok=$([[ "$suite" == *passed* && "$suite" != *failed* ]] && echo 1 || echo 0) demo_changed=$dc demo_clean=$dk"
 } > $out 2>&1
 cat $out
